@@ -288,7 +288,11 @@ class PlainQuantity(Generic[MagnitudeT], PrettyIPython, SharedRegistryObject):
         if self_base.dimensionless:
             return hash(self_base.magnitude)
 
-        return hash((self_base.__class__, self_base.magnitude, self_base.units))
+        # Equal quantities can differ in dimensionless base units (radian,
+        # count, ...), so hash what __eq__ compares: dimensionality and magnitude.
+        return hash(
+            (self_base.__class__, self_base.magnitude, self_base.dimensionality)
+        )
 
     @property
     def magnitude(self) -> MagnitudeT:
